@@ -44,10 +44,12 @@ SNIPPETS = [
     ("p.\np(s6a).\np(s6b) :- !.\np(s6c).\nsub(X) :- r(X).\n", {('p', 0): ['rows', [[]], None], ('p', 1): ['rows', [['s6a'], ['s6b'], ['s6c']], 1], ('sub', 1): ['call', 'r', 1]}),
     ("r(s7a).\nr(s7b) :- !.\nmain(s7m).\n", {('r', 1): ['rows', [['s7a'], ['s7b']], 1], ('main', 1): ['rows', [['s7m']], None]}),
     ("p(X,Y,Z) :- q(X,Y), r(Z).\n", {('p', 3): ['join', ('q', 2), ('r', 1)]}),
+    ("is_a(s9a).\nis_a(s9b) :- !.\nis_a(s9c).\nmy_long_name(s9x,s9y).\n", {('is_a', 1): ['rows', [['s9a'], ['s9b'], ['s9c']], 1], ('my_long_name', 2): ['rows', [['s9x', 's9y']], None]}),
+    ("is_a(s10a).\nmain(X) :- is_a(X).\n", {('is_a', 1): ['rows', [['s10a']], None], ('main', 1): ['call', 'is_a', 1]}),
 ]
-NAMES = [('p', 0), ('p', 1), ('p', 2), ('p', 3), ('q', 2), ('r', 1), ('main', 1), ('sub', 1), ('zz', 1), ('q', 1), ('atom', 1), ('query', 2), ('unify', 2), ('sub', 0)]
-REG_TARGETS = [('p', 1), ('p', 2), ('sub', 1), ('zz', 1), ('p', 0), ('r', 1), ('atom', 1), ('unify', 2), ('q', 2), ('p', 3)]
-ASSERT_TARGETS = [('p', 1), ('p', 2), ('sub', 1), ('p', 0), ('r', 1), ('q', 2), ('atom', 1), ('p', 3), ('main', 1)]
+NAMES = [('is_a', 1), ('is_a', 2), ('my_long_name', 2), ('p', 0), ('p', 1), ('p', 2), ('p', 3), ('q', 2), ('r', 1), ('main', 1), ('sub', 1), ('zz', 1), ('q', 1), ('atom', 1), ('query', 2), ('unify', 2), ('sub', 0)]
+REG_TARGETS = [('is_a', 1), ('is_a', 1), ('my_long_name', 2), ('p', 1), ('p', 2), ('sub', 1), ('zz', 1), ('p', 0), ('r', 1), ('atom', 1), ('unify', 2), ('q', 2), ('p', 3)]
+ASSERT_TARGETS = [('is_a', 1), ('p', 1), ('p', 2), ('sub', 1), ('p', 0), ('r', 1), ('q', 2), ('atom', 1), ('p', 3), ('main', 1)]
 RESERVED = {'variable', 'atom', 'functor', 'functor1', 'functor2', 'functor3', 'listpair', 'makelist', 'ATOM_NIL', 'unify', 'match_dynamic', 'query', 'True', 'False', '__builtins__'}
 _CODE = None
 READ_CAP = 300       # answers compared per read-back (engine and model truncated alike)
@@ -65,8 +67,23 @@ def gen(seed, tier):
     rng = random.Random(seed)
     ops = []
     p_fail = rng.choice((0.05, 0.15, 0.3))
+    suspend_heavy = rng.random() < 0.3
+    focus = rng.choice([('p', 1), ('is_a', 1), ('r', 1), ('sub', 1)])
+    focus_snips = [i for i, (_, d) in enumerate(SNIPPETS) if focus in d and d[focus][0] == 'rows']
     for _ in range(rng.randrange(3, 21)):
         k = rng.random()
+        if suspend_heavy:
+            # many calls kept suspended on one predicate while definitions of that predicate are appended
+            if k < 0.3 and focus_snips:
+                ops.append(['load', rng.choice(focus_snips), rng.random() < 0.15, 'string'])
+                continue
+            if k < 0.45:
+                ops.append(['qstart', focus[0], focus[1]])
+                continue
+            if k < 0.75:
+                ops.append(['qstep', rng.randrange(2)])
+                continue
+            k = rng.random()
         if k < 0.36:
             ops.append(['load', rng.randrange(len(SNIPPETS)), rng.random() < 0.5, 'file' if rng.random() < 0.3 else 'string'])
         elif k < 0.36 + p_fail:
@@ -79,7 +96,7 @@ def gen(seed, tier):
             name, ar = rng.choice(ASSERT_TARGETS)
             ops.append(['assert', name, ar, rng.random() < 0.3])
         elif k < 0.9:
-            name, ar = rng.choice([('p', 1), ('p', 1), ('r', 1), ('sub', 1), ('main', 1), ('p', 2), ('q', 2)])
+            name, ar = rng.choice([('p', 1), ('p', 1), ('r', 1), ('sub', 1), ('main', 1), ('p', 2), ('q', 2), ('is_a', 1)])
             ops.append(['qstart', name, ar])
         elif k < 0.97:
             ops.append(['qstep', rng.randrange(2)])
